@@ -22,8 +22,9 @@ ASSUMPTIONS = [
     "task (real SIGINT delivered to asyncio.run's handler, and Task.cancel())",
     "fault classes are represented by ConnectionError and 3 subclasses, UDSException / MissingResponse, and RuntimeError / "
     "ValueError / TimeoutError / OSError / AssertionError; sys.exit codes are non-negative ints, None or a string",
-    "faults inside the framework's own steps (flock acquisition, artifacts directory creation, database open / schema check, "
-    "transport connect) are outside the property statement ('raised in setup, main or teardown') and outside the model",
+    "a database that cannot be opened is represented by a file that is not a database and by a foreign schema version; other "
+    "faults inside the framework's own steps (flock acquisition -> exit 72, artifacts directory creation, transport connect "
+    "inside Scanner.setup) are outside the property statement ('raised in setup, main or teardown') and outside the model",
     "sqlite3 / aiosqlite, zstandard, fcntl.flock, subprocess.run are trusted to do what their documentation says",
 ]
 
@@ -509,7 +510,7 @@ def replay(ctx, case):
 MANIFEST = {
     "level_text": ("Lean 4 theorems over a statement-by-statement model of BaseCommand.entry_point / AsyncScript.run / "
                    "Scanner+UDSScanner setup-teardown / run_hook (Model/Lifecycle.lean): for every resource combination, command "
-                   "kind, hook outcome and every exit kind (return, sys.exit(n), sys.exit(non-int), expected / unexpected error, "
+                   "kind, hook outcome, database opening or not, and every exit kind (return, sys.exit(n), sys.exit(non-int), expected / unexpected error, "
                    "KeyboardInterrupt, cancellation of the main task) at setup, main, teardown-before-super and teardown-after-super "
                    "the returned code follows the mapping 0 / n / 74 / 70 / 130, META.json and the run_meta row carry that code "
                    "with ordered times, the log handler is closed, the database disconnected, the lock released, the post-hook "
@@ -517,12 +518,13 @@ MANIFEST = {
                    "order, exit constants and CATCHED_EXCEPTIONS are regenerated from the AST / live modules with agreement "
                    "theorems. Tied to the code by running the real entry_point() (three tiny command classes, fake in-process "
                    "transport, real sqlite, flock probed from a second fd, zstd log decoded with PenlogReader, recording hook "
-                   "scripts, real SIGINT) over the crash-point matrix and comparing with the model and the executable spec."),
+                   "scripts, real SIGINT) over the crash-point matrix and comparing with the model and the executable spec; plus "
+                   "one shipped command end to end (`discover doip` with --db against a closed port)."),
     "level_note": ("Trusted: Lean kernel (propext, Quot.sound, Classical.choice), the translator gen/c15_exit.py, the harness, "
                    "sqlite3/aiosqlite, zstandard, flock, subprocess. Partial: process-level signal delivery and interpreter exit are "
                    "represented by KeyboardInterrupt / task cancellation and by the return value of entry_point(); faults inside "
-                   "the framework's own pre-run steps (lock acquisition, artifacts dir, database open, transport connect) are not "
-                   "modelled; config re-creation is only checked by round-tripping META.json's config through CONFIG_TYPE (C18 owns it)."),
+                   "the framework's own pre-run steps other than opening the database (lock acquisition, artifacts dir, transport "
+                   "connect) are not modelled; config re-creation is only checked by round-tripping META.json's config through CONFIG_TYPE (C18 owns it)."),
     "technique": "Lean 4 proof (case analysis over a total lifecycle model, regenerated ladder/constant tables) + differential correspondence against real entry_point() runs",
     "design_ref": "DESIGN.md section 7, C15",
 }
